@@ -169,7 +169,7 @@ Qed.
 Lemma step_reply_same b b' c j tag ie :
   same_state b' b -> same_outcome (step b' (EvReply c j tag ie)) (step b (EvReply c j tag ie)).
 Proof.
-  intros (Hc & Hs & Hp & Hn & H1 & H2 & H3).
+  intros (Hc & Hs & Hp & Hn & H1 & H2 & H3 & H4 & H5).
   unfold step, step_f, handler. rewrite Hc.
   destruct (find_conn (b_conns b) c) as [cn|] eqn:Ef; [|exact I].
   unfold run_request.
